@@ -61,6 +61,12 @@ pub struct Attr {
     /// raw callback expression (positional)
     #[serde(default)]
     pub cb: Option<String>,
+    /// callback that adds this amount to `lex.extras` (u32 extras), for the API histories
+    #[serde(default)]
+    pub inc: Option<u32>,
+    /// callback kind of the C13 table (see subj-template/src/cb.rs), rendered as `cbk::<kind>`
+    #[serde(default)]
+    pub cbk: Option<String>,
     /// explicit order of the named arguments when rendering (C18); default canonical
     #[serde(default)]
     pub order: Option<Vec<String>>,
@@ -463,6 +469,9 @@ fn capture(in_path: &str, out_dir: &str, stages: bool) {
             "u8": u8cls,
             "prio": prio,
             "kind": kinds,
+            "inc": leaves.iter().map(|l| l.attr.inc.unwrap_or(0)).collect::<Vec<_>>(),
+            "cbk": leaves.iter().map(|l| l.attr.cbk.clone().unwrap_or_default()).collect::<Vec<_>>(),
+            "role": def.tags.iter().find_map(|t| t.strip_prefix("role:")).unwrap_or("").to_string(),
             "vname": leaves.iter().map(|l| l.variant.clone().unwrap_or_default()).collect::<Vec<_>>(),
             "g": g_tla,
             "ref": ref_tla,
